@@ -126,6 +126,18 @@ func c10Check(c *C10Case, r *core.Rec) {
 		if got < lo-slack || got > hi+slack {
 			r.Fail("range", "Quantile(%v)=%v outside [%v,%v]", q, got, lo, hi)
 		}
+		// Between two EQUAL order statistics (a tie, a constant sample) the estimate is that
+		// value itself: there is nothing to interpolate and no rounding to allow for.
+		{
+			wf, exact := want.Float64()
+			if exact && q > 0 && q < 1 {
+				h := (float64(n)+1.0/3)*q + 1.0/3
+				k := int(math.Floor(h))
+				if k >= 1 && k < n && sorted[k-1] == sorted[k] && math.Abs(h-math.Round(h)) > 1e-9 && got != wf {
+					r.Fail("tie-exact", "xs=%v: Quantile(%v)=%v, but both neighbouring order statistics equal %v", trunc(c.Xs), q, got, wf)
+				}
+			}
+		}
 		if got < prev-slack {
 			r.Fail("monotone", "xs=%v: Quantile drops from %v to %v at q=%v", trunc(c.Xs), prev, got, q)
 		}
@@ -351,7 +363,21 @@ func c10Run(c *core.Ctx) {
 			}
 		})
 	}
-	r.Bound("sequences", fmt.Sprintf("every sequence of length 1..%d over {-1,0,2,7}; weighted for length<=%d", maxLen, maxWLen))
+	// values that are not dyadic (0.1, 0.3, 123.456), with ties: every sequence of length 1..5
+	nd := []float64{0.1, 0.3, 123.456}
+	for L := 1; L <= 5; L++ {
+		enum.Sequences(L, len(nd), func(s []int) {
+			if !c.Mine() {
+				return
+			}
+			xs := make([]float64, L)
+			for i, k := range s {
+				xs[i] = nd[k]
+			}
+			run(xs, nil)
+		})
+	}
+	r.Bound("sequences", fmt.Sprintf("every sequence of length 1..%d over {-1,0,2,7}, of length 1..5 over {0.1,0.3,123.456}; weighted for length<=%d", maxLen, maxWLen))
 	for _, n := range []int{7, 8, 9, 10, 11, 12, 50, 199, 200} {
 		for pat := 0; pat < 4; pat++ {
 			for _, off := range []float64{0, 1e6} {
